@@ -12,9 +12,13 @@ EXTENDS Integers, Sequences, FiniteSets, TLC, Json, IOUtils, TLCExt, SequencesEx
 R(n) == <<n, 1>>
 NaN == <<0, 0>>
 IsNaN(a) == a[2] = 0
-RLt(a, b) == a[1] * b[2] < b[1] * a[2]
-RLe(a, b) == a[1] * b[2] <= b[1] * a[2]
-REq(a, b) == a[1] * b[2] = b[1] * a[2]
+(* comparisons through the integer parts first: recorded values may have large numerators (TLC integers are 32 bit, *)
+(* denominators of recorded values are at most 40000)                                                              *)
+Fl(a) == a[1] \div a[2]
+Fr(a) == a[1] - Fl(a) * a[2]
+RLt(a, b) == IF Fl(a) # Fl(b) THEN Fl(a) < Fl(b) ELSE Fr(a) * b[2] < Fr(b) * a[2]
+RLe(a, b) == IF Fl(a) # Fl(b) THEN Fl(a) < Fl(b) ELSE Fr(a) * b[2] <= Fr(b) * a[2]
+REq(a, b) == Fl(a) = Fl(b) /\ Fr(a) * b[2] = Fr(b) * a[2]
 RECURSIVE Gcd(_, _)
 Gcd(a, b) == IF b = 0 THEN a ELSE Gcd(b, a % b)
 Abs(x) == IF x < 0 THEN -x ELSE x
@@ -109,8 +113,10 @@ Cases(V, maxn, Scales) ==
   \cup UNION {{[BaseCase EXCEPT !.mode = "st", !.xs = xs, !.steps = st, !.scales = sc] :
                   sc \in SeqsN(Scales, Len(st) + 1), xs \in {Grid(50), WithNaNs(Grid(50))}} : st \in SortedSubseqs(<<10, 20, 30, 40>>)}
 (* the physical range includes negative values (time deltas) and zero *)
-CaseSet == IF IOEnv.TIER = "quick" THEN Cases({R(-60), R(-15), R(0), R(7), <<61, 2>>, R(60), NaN}, 3, {1, 2, 5})
-           ELSE Cases({R(-60), R(-15), R(0), R(7), <<61, 2>>, R(30), R(60), NaN}, 4, {1, 2, 5, 1000})
+(* ... and values whose spread is tiny compared with their size (a thin layer high up): 10000, 10000.01, 10000.05, 10001 *)
+FarVals == {R(10000), <<1000001, 100>>, <<200001, 20>>, R(10001), NaN}
+CaseSet == IF IOEnv.TIER = "quick" THEN Cases({R(-60), R(-15), R(0), R(7), <<61, 2>>, R(60), NaN}, 3, {1, 2, 5}) \cup Cases(FarVals, 3, {1, 5})
+           ELSE Cases({R(-60), R(-15), R(0), R(7), <<61, 2>>, R(30), R(60), NaN}, 4, {1, 2, 5, 1000}) \cup Cases(FarVals, 4, {1, 5, 1000})
 
 (* ---- jobs ---- *)
 VARIABLES job, done
